@@ -505,10 +505,10 @@ const UNION_NAMES: [&str; 3] = ["SearchResult", "Pet", "Subject"];
 const ENUM_NAMES: [&str; 6] = ["Episode", "Color", "Status", "Unit", "HTTPMethod", "sort_order"];
 const SCALAR_NAMES: [&str; 3] = ["DateTime", "URL", "JSON"];
 const INPUT_NAMES: [&str; 7] = ["Filter", "Range", "Point", "Options", "Tree", "HTTPOptions", "page_input"];
-const FIELD_NAMES: [&str; 27] = [
+const FIELD_NAMES: [&str; 30] = [
     "name", "barks", "meows", "age", "weight", "isActive", "createdAt", "snake_case_field", "ownerId", "homepage",
     "score", "title", "body", "SCREAMING", "PascalField", "_leading", "field2", "nickName", "e_mail", "x",
-    "type", "in", "ref", "match", "loop", "yield", "Self",
+    "type", "in", "ref", "match", "loop", "yield", "Self", "self", "super", "crate",
 ];
 const LINK_NAMES: [&str; 10] = ["owner", "friend", "friends", "bestFriend", "pets", "author", "items", "parent", "children", "related"];
 const ENUM_VALUES: [&str; 16] = [
@@ -589,7 +589,9 @@ pub fn random_schema(rng: &mut Rng, k: &SchemaKnobs) -> ASchema {
         for n in links {
             let base = rng.pick(&composite).clone();
             taken.push(n.clone());
-            fs.push(AField { name: n, ty: wrap_random(rng, &base, k.max_list_depth.min(2)), dep: None });
+            // composite-typed fields are deprecated too, now and then
+            let dep = if k.deprecations && rng.chance(8) { Some(if rng.chance(50) { Some("moved".to_string()) } else { None }) } else { None };
+            fs.push(AField { name: n, ty: wrap_random(rng, &base, k.max_list_depth.min(2)), dep });
         }
         fs
     };
